@@ -418,6 +418,17 @@ def run_all_stream(h, rng, quick, res, cli=None, tag="all"):
             srcs.append("%s(%s)" % (b, av()))
             srcs.append("%s(%s, %s)" % (b, av(), av()))
         srcs.append("%s(%s, %s, %s)" % (b, av(), av(), av()))
+    # C01V: percentile — its side condition is discharged from the validity invariant, so the nearest-rank index
+    # `(p / 100 * (len - 1)).round() as usize` of the model is tied to the code here as well (C15 owns its laws):
+    # literal lists of 1..7 numbers (incl. duplicates, negative, huge, tiny), p on and around the rank boundaries
+    pct_pool = ["0", "1", "2", "0.5", "3.25", "10", "100", "-7", "1e300", "1e-300", "5e-324", "-0.0", "2.5", "1000"]
+    pct_ps = ["0", "100", "50", "25", "75", "33.3", "66.7", "12.5", "99.9", "0.1", "49.999", "50.001", "-1", "100.5", "1e-300"]
+    for _ in range(60 if quick else 600):
+        n_ = 1 + rng.below(7)
+        srcs.append("percentile([%s], %s)" % (", ".join(rng.choice(pct_pool) for _ in range(n_)), rng.choice(pct_ps)))
+    srcs.append("percentile([], 50)")
+    srcs.append("percentile([1, 0/0, 3], 50)")
+    srcs.append("[3, 1, 2] into (l => percentile(l, 100))")
     defs = g.coq_tables()          # after programs(): the generator may have extended the tables
     inp = "[" + "; ".join('((hx "%s"), %s)' % (c.hexs(k), v.coq()) for k, v in DEFAULT_INPUTS.p) + "]"
     defs = "Definition INP : list (string * value) := %s.\n%s" % (inp, defs)
@@ -444,7 +455,7 @@ def run_all_stream(h, rng, quick, res, cli=None, tag="all"):
         model[i] = o
     rust = rust_eval(h, srcs)
     agree, mism, rejected, miss, unm, failed = 0, [], 0, 0, 0, 0
-    reach = {b: 0 for b in NEWLY_MODELLED + ["^"]}
+    reach = {b: 0 for b in NEWLY_MODELLED + ["^", "percentile"]}
     outcome = {}
     for s, r_, m_, cq in zip(srcs, rust, model, coq):
         if cq is None:
